@@ -212,8 +212,16 @@ def run_job(job):
             obj, resolved, cont = (lambda: m1), [m1], 'single'
         else:
             obj, resolved, cont = (lambda: (lambda: m1)), [m1], 'single'
-        if opname == 'div' and (side == 'left' or kind not in ('int', 'float', 'npint', 'npfloat')):
-            # mv / mv and number / mv have rational results: keep divisors single non-null blades
+        if opname == 'div' and kind not in ('int', 'float', 'npint', 'npfloat'):
+            if side != 'left':
+                continue
+            # sequence / callable on the LEFT of a division (reflected division of every element): the divisor is a single
+            # blade with a non-zero square, so the quotients are exact rationals
+            good = [B for B in range(2 ** d) if alg.signs[B, B] != 0]
+            if not good:
+                continue
+            m0 = MultiVector.fromkeysvalues(alg, (rng.choice(good),), [rng.choice([2, -2, 4])])
+        elif opname == 'div' and side == 'left':
             continue
         raised, out = '', None
         try:
